@@ -63,3 +63,42 @@ def etok_many(ctx, pairs, tag="etok"):
 
 def describe(case):
     return case if len(case) < 1500 else case[:1500] + " ..."
+
+
+def text_level_premise(ctx, lines, impl, which):
+    """evaluate the decidable separability premise of the text-level theorems (Spec/EngScript.v: params_sep /
+    inline_sep, which = "P" / "I") with the extracted model on the script of every case the implementation
+    rendered byte-identically to the model; the theorem then speaks about exactly this SQL text.  Coverage only:
+    a premise that is not met is not a verdict (raw SQL text may contain anything; the strict engine lexer reads
+    `=-5` as one operator), the direct token oracle on the implementation's output decides those cases."""
+    sel = [i for i, (c, o) in enumerate(zip(lines, impl))
+           if (c.startswith("stmt ") or c.startswith("expr ")) and split_out(o) is not None]
+    if not sel:
+        return
+    outs = ctx.run_model(["sep " + lines[i].split(" ", 1)[1] for i in sel], "sep")
+    met = raw = noraw = 0
+    examples = []
+    for i, o in zip(sel, outs):
+        ok = (which + "1") in o.split(" ")
+        if ok:
+            met += 1
+        elif "cust" in lines[i]:
+            raw += 1
+        else:
+            noraw += 1
+            if len(examples) < 3:
+                examples.append(describe(lines[i])[:400])
+    try:
+        import os
+        with open(os.path.join(vlib.CACHE, "sep_notmet_%s.txt" % ctx.pid), "w") as f:
+            f.write("".join("sepdbg " + lines[i].split(" ", 1)[1] + "\n" for i, o in zip(sel, outs)
+                            if (which + "1") not in o.split(" ") and "cust" not in lines[i]))
+    except Exception:
+        pass
+    ctx.cov["text_level_theorem"] = {
+        "statements_evaluated": len(sel), "premise_met": met,
+        "premise_not_met_raw_sql_given": raw, "premise_not_met_no_raw_sql": noraw,
+        "examples_not_met_no_raw_sql": examples,
+        "note": "premise = no engine token is read across a seam between two pieces of the rendered script "
+                "(decidable, Spec/EngScript.v); where it is met the text-level theorem of Properties/%s.v applies "
+                "to this very SQL text" % ctx.pid}
